@@ -127,7 +127,122 @@ func Load(root string, tests bool) *Prog {
 		}
 		return a.String() < b.String()
 	})
+	p.computeForwarders()
 	return p
+}
+
+// Thin forwarders: a function or method whose whole body is one call to a standard-library function with its own
+// parameters, in order, and a return of that call's results (a file-system seam such as `func (osFS) Remove(n string)
+// error { return os.Remove(n) }`). A call that can only reach forwarders of one standard-library function is treated
+// as a call of that function by isPkgFunc; the forwarder itself is not a call site of interest.
+var fwdTarget = map[*ssa.CallCommon]*types.Func{}
+var forwarderFns = map[*ssa.Function]*types.Func{}
+
+func forwarderOf(f *ssa.Function) *types.Func {
+	if len(f.Blocks) != 1 {
+		return nil
+	}
+	var call *ssa.Call
+	for _, in := range f.Blocks[0].Instrs {
+		switch x := in.(type) {
+		case *ssa.Call:
+			if call != nil {
+				return nil
+			}
+			call = x
+		case *ssa.Return, *ssa.Extract, *ssa.DebugRef:
+		default:
+			return nil
+		}
+	}
+	if call == nil || call.Call.IsInvoke() {
+		return nil
+	}
+	o := calleeObj(&call.Call)
+	if o == nil || o.Pkg() == nil || strings.Contains(o.Pkg().Path(), ".") || o.Type().(*types.Signature).Recv() != nil {
+		return nil
+	}
+	params := f.Params
+	if f.Signature.Recv() != nil && len(params) > 0 {
+		params = params[1:]
+	}
+	if len(params) != len(call.Call.Args) {
+		return nil
+	}
+	for i, a := range call.Call.Args {
+		if a != ssa.Value(params[i]) {
+			return nil
+		}
+	}
+	return o
+}
+
+func (p *Prog) computeForwarders() {
+	any := false
+	for _, f := range p.ModFns {
+		if o := forwarderOf(f); o != nil {
+			forwarderFns[f] = o
+			any = true
+		}
+	}
+	if !any {
+		return
+	}
+	// synthetic wrappers ((*T).M for a value-receiver method, bound-method thunks) of a forwarder are forwarders
+	for _, f := range p.ModFns {
+		if forwarderFns[f] != nil || f.Synthetic == "" {
+			continue
+		}
+		var tgt *types.Func
+		ncall := 0
+		eachInstr(f, func(in ssa.Instruction) {
+			if c, ok := in.(*ssa.Call); ok {
+				if _, isB := c.Call.Value.(*ssa.Builtin); isB {
+					return
+				}
+				ncall++
+				if sc := c.Call.StaticCallee(); sc != nil {
+					tgt = forwarderFns[sc]
+				}
+			}
+		})
+		if ncall == 1 && tgt != nil {
+			forwarderFns[f] = tgt
+		}
+	}
+	for _, f := range p.ModFns {
+		if forwarderFns[f] != nil {
+			continue
+		}
+		eachInstr(f, func(i ssa.Instruction) {
+			site, ok := i.(ssa.CallInstruction)
+			if !ok {
+				return
+			}
+			cs := p.Callees(site)
+			if len(cs) == 0 {
+				return
+			}
+			var tgt *types.Func
+			for _, c := range cs {
+				o := forwarderFns[c]
+				if o == nil || (tgt != nil && o != tgt) {
+					return
+				}
+				tgt = o
+			}
+			fwdTarget[site.Common()] = tgt
+		})
+	}
+}
+
+func (p *Prog) isForwarder(f *ssa.Function) bool {
+	for g := f; g != nil; g = g.Parent() {
+		if forwarderFns[g] != nil {
+			return true
+		}
+	}
+	return false
 }
 
 // FnPkg returns the ssa package a function (or its outermost parent) belongs to.
@@ -405,6 +520,9 @@ func calleeObj(c *ssa.CallCommon) *types.Func {
 // isPkgFunc: call to package-level function pkgPath.name
 func isPkgFunc(c *ssa.CallCommon, pkgPath, name string) bool {
 	o := calleeObj(c)
+	if t := fwdTarget[c]; t != nil {
+		o = t
+	}
 	if o == nil || o.Pkg() == nil {
 		return false
 	}
